@@ -186,14 +186,17 @@ theorem allocate_fresh_has_no_handler (c : Conn) (h : Inv c) (id : Nat) (ids' : 
     simp only at e; subst e
     exact notSrv r' hm2
 
-/-- Exhaustion: when no stream id is free the writer answers the task with `UnableToAllocStreamId`, drops it
-from the queue and leaves the map (and everything else) unchanged. -/
+/-- (Unfolding of `step`, kept for reference — the content of the exhaustion claim is `exhaustion_iff_full` and
+`exhausted_caller_gets_error` below.) When `allocate` fails the writer answers the task with
+`UnableToAllocStreamId`, drops it from the queue and leaves the map (and everything else) unchanged. -/
 theorem exhaustion (c : Conn) (r : Nat) (q : List Nat) (hb : c.broken = false) (hq : c.queue = r :: q)
     (hnone : c.map.allocate r = none) :
     step c .writerTake = { c with queue := q, callers := deliver c.callers r (.err .unableToAllocStreamId) } := by
   simp only [step, hb, Bool.false_eq_true, if_false, hq, hnone]
 
-/-- … which happens exactly when all 32768 ids are reserved. -/
+/-- EXHAUSTION (headline): in every state satisfying the invariant, allocating a stream id for a task fails
+exactly when all 32768 ids are reserved — never earlier (no id is lost: the bitmap refines the set of used ids,
+`bits_refine_*`), and each reserved id is owed by the server or was just allocated (`Inv.map.srvUsed`). -/
 theorem exhaustion_iff_full (c : Conn) (h : Inv c) (r : Nat) :
     c.map.allocate r = none ↔ ∀ id < 32768, c.map.ids.isUsed id = true := by
   rw [hallocate_none]; exact sallocate_none h.map.len
